@@ -2,7 +2,8 @@
     Model: MM15/Codec.v (converter.py [_import_proof] and what it calls; parser.py proof field).
     Only statements here; the proofs are in MM15/CodecProofs.v. *)
 From Coq Require Import NArith List Permutation Lia.
-From Pi2 Require Import MM15.Codec MM15.CodecProofs MM15.Witness MM15.Replay MM15.ReplayProofs.
+From Pi2 Require Import MM15.Codec MM15.CodecProofs MM15.Witness MM15.Replay MM15.ReplayProofs
+  MM15.GenPrelude Gen.MMDecode MM15.GenMMDecodeAgree.
 Import ListNotations.
 Open Scope N_scope.
 
@@ -194,3 +195,87 @@ Proof.
   vm_compute. intros H. discriminate H.
 Qed.
 Print Assumptions C15_refuted_set_order.
+
+(* ================================================================================================ *)
+(** * The same statements about the functions TRANSLATED FROM THE CURRENT SOURCE
+      (coq/Gen/MMDecode.v, regenerated by translators/mmdecode.py on every run from converter.py [_import_proof]
+      and translate.py [exec_proof]; MM15/GenMMDecodeAgree.v proves them equal to the model above). *)
+
+(** the translated functions are the model's functions *)
+Theorem C15_source_convert_to_number_is_model : forall w, gen_convert_to_number w = decode_word w.
+Proof. exact gen_convert_to_number_eq. Qed.
+Print Assumptions C15_source_convert_to_number_is_model.
+Theorem C15_source_import_proof_is_model : forall stmts mv proof,
+  gen_import_proof stmts mv proof =
+  match import_proof (mand_db_order (floats_of stmts) mv) proof with
+  | Some (tbl, st) => Some (numbered 1 tbl, st)
+  | None => None
+  end.
+Proof. exact gen_import_proof_eq. Qed.
+Print Assumptions C15_source_import_proof_is_model.
+Theorem C15_source_replay_is_model : forall (A : Type) (eqb : A -> A -> bool) (tbl : list str) (m k : nat) steps,
+  length tbl = (m + k)%nat ->
+  gen_replay A (numbered 1 tbl) steps = option_map (map erase) (replay_marks eqb false m k steps None []).
+Proof. exact gen_replay_eq. Qed.
+Print Assumptions C15_source_replay_is_model.
+
+(** convert_to_number of the source IS Appendix B's decoder, on every string *)
+Theorem C15_source_decode_is_appendixB : forall w, gen_convert_to_number w = appendixB_decode w.
+Proof. exact source_decode_is_appendixB. Qed.
+Print Assumptions C15_source_decode_is_appendixB.
+(** every number decodes back to itself: all n, no bound *)
+Theorem C15_source_decode_encode : forall n, 1 <= n -> gen_convert_to_number (encode n) = Some n.
+Proof. exact source_decode_encode. Qed.
+Print Assumptions C15_source_decode_encode.
+Theorem C15_source_encode_decode : forall w, valid_word w ->
+  exists n, gen_convert_to_number w = Some n /\ 1 <= n /\ encode n = w.
+Proof. exact source_encode_decode. Qed.
+Print Assumptions C15_source_encode_decode.
+Theorem C15_source_encoding_unique : forall w1 w2 n,
+  gen_convert_to_number w1 = Some n -> gen_convert_to_number w2 = Some n -> w1 = w2.
+Proof. exact source_encoding_unique. Qed.
+Print Assumptions C15_source_encoding_unique.
+
+(** the whole of _import_proof as translated: label table with keys 1, 2, ... = mandatory hypotheses in database order
+    then the listed labels; steps with 0 for Z: every database, variable set, layout, label list, chunking, Z placement *)
+Theorem C15_source_import_statement_spec : forall stmts mv pre items ls ws ss,
+  all_lex_space pre ->
+  Forall (fun it => tok_ok (fst it) /\ sep_ok (snd it)) items ->
+  map fst items = [40] :: ls ++ [41] :: ws ->
+  Forall label_ok ls -> Forall no_space ws ->
+  concat ws = concat (map render ss) -> Forall step_ok ss ->
+  gen_import_proof stmts mv (proof_field (layout pre items)) =
+  Some (numbered 1 (mand_db_order (floats_of stmts) mv ++ ls), map step_code ss).
+Proof. exact source_import_spec. Qed.
+Print Assumptions C15_source_import_statement_spec.
+Theorem C15_source_mandatory_order : forall stmts mv mv' proof, Permutation mv mv' ->
+  gen_import_proof stmts mv proof = gen_import_proof stmts mv' proof.
+Proof. exact source_mandatory_order. Qed.
+Print Assumptions C15_source_mandatory_order.
+(** keys of the table are the positions: number n is the n-th entry *)
+Theorem C15_source_table_numbering : forall tbl b n,
+  dict_get (numbered b tbl) n = if n <? b then None else nth_error tbl (N.to_nat (n - b)).
+Proof. exact numbered_lookup. Qed.
+Print Assumptions C15_source_table_numbering.
+
+(** exec_proof as translated: a load comes from a step numbered m + k + j + 1 and loads what the (j+1)-th Z saved;
+    a Z saves the term the preceding step left on top *)
+Theorem C15_source_marked_reference_denotes : forall (A : Type) (tbl : list str) (m k : nat) steps (tr : list (gev A)) i p,
+  length tbl = (m + k)%nat ->
+  gen_replay A (numbered 1 tbl) steps = Some tr ->
+  nth_error tr i = Some (GLoad p) ->
+  exists n t j, nth_error steps i = Some (n, t) /\ N.to_nat n = (m + k + j + 1)%nat /\
+                nth_error (gsaved (firstn i tr)) j = Some p.
+Proof. exact source_marked_reference_denotes. Qed.
+Print Assumptions C15_source_marked_reference_denotes.
+Theorem C15_source_z_marks_preceding_step : forall (A : Type) (tbl : list str) (m k : nat) steps (tr : list (gev A)) i p,
+  length tbl = (m + k)%nat ->
+  gen_replay A (numbered 1 tbl) steps = Some tr ->
+  nth_error tr i = Some (GSave p) ->
+  exists i', i = S i' /\ option_map gterm (nth_error tr i') = Some p.
+Proof. exact source_z_marks_preceding_step. Qed.
+Print Assumptions C15_source_z_marks_preceding_step.
+Example C15_source_replay_nonvacuous :
+  gen_replay N (numbered 1 [[97]; [98]]) [(1, 10); (0, 0); (1, 10); (0, 0); (2, 20); (0, 0); (4, 0); (5, 0)]%N
+  = Some [GLabel 10; GSave 10; GLabel 10; GSave 10; GLabel 20; GSave 20; GLoad 10; GLoad 20]%N.
+Proof. reflexivity. Qed.
